@@ -184,6 +184,16 @@ def inner_product(bra_mps, ket_mps):
     return tt_tsr.as_scalar(tensor)
 
 
+def _norm(array):
+    """Frobenius norm of array, safe against under/overflow of the squares of tiny/huge entries."""
+    with np.errstate(over='ignore', under='ignore'):
+        norm = sp_linalg.norm(array)
+    if not 1e-140 < norm < 1e140:
+        # squares of entries may under/overflow (e.g. giving a zero norm for a non-zero array) so use scaled nrm2
+        norm = sp_linalg.norm(array.ravel())
+    return norm
+
+
 def left_canonical_form(mps, chi=None, tol=None, qr=False, normalise=False, mask=None):
     """
     Given an MPS/MPO as a list of tensors, return the MPS/MPO in left canonical form evaluated by QR decomposition or
@@ -249,7 +259,7 @@ def left_canonical_form(mps, chi=None, tol=None, qr=False, normalise=False, mask
                 q, r = sp_linalg.qr(matrix, mode='economic')  # (new)k, ks
 
                 # find norm of r
-                r_norm = sp_linalg.norm(r)
+                r_norm = _norm(r)
                 if not r_norm:
                     # if r_norm is zero then zero return values and break
                     lcf_mps, norm = zeros_like(mps), mp.mpf(0.0)
@@ -317,7 +327,7 @@ def left_canonical_form(mps, chi=None, tol=None, qr=False, normalise=False, mask
         else:  # last row
             if normalise:
                 # NOTE: np.linalg.norm is faster but sp_linalg.norm is used for consistency with sp_linalg.svd
-                last_row_norm = sp_linalg.norm(lcf_mps[row])
+                last_row_norm = _norm(lcf_mps[row])
                 if not last_row_norm:
                     # if last_row_norm is zero then zero return values and break
                     lcf_mps, norm = zeros_like(mps), mp.mpf(0.0)
